@@ -128,7 +128,8 @@ func canonOf(s string) string {
 //   a, b : pool index of the first / second account argument, sa, sb : spelling index
 //   x    : pool index of the executor argument (execs are 6..8), sx its spelling
 //   amode: 0 absolute amount aval; 1 = what the source can spend + aval;
-//          2 = room left under the balance limit at the destination + aval
+//          2 = room left under the balance limit at the destination + aval;
+//          3 = aval/8 of what the source can spend; 4 = min(aval, what the source can spend)
 var kinds = []string{
 	"transfer", "toexec", "withdraw", "frozen", "active", "exectransfer", "exectransferfrozen",
 	"execdeposit", "execwithdraw", "execdepositfrozen", "execissue", "mint", "burn", "genesis", "genesisexec",
@@ -136,8 +137,12 @@ var kinds = []string{
 
 const perOpLimit = int64(1e17) // MaxCoin * coin precision: the largest "amount" + 1
 
-func genAmount(r *simrt.RNG) (mode, val int64) {
-	switch r.Weighted(10, 3, 2, 2, 6, 3, 3) {
+func genAmount(r *simrt.RNG, spends bool) (mode, val int64) {
+	w := []int{10, 3, 2, 2, 3, 2, 3, 0, 0}
+	if spends {
+		w = []int{2, 2, 1, 1, 6, 3, 2, 5, 12}
+	}
+	switch r.Weighted(w...) {
 	case 0:
 		return 0, int64(r.Range(1, 1000)) * 1e5
 	case 1:
@@ -150,61 +155,117 @@ func genAmount(r *simrt.RNG) (mode, val int64) {
 		return 1, int64(r.Range(-1, 1)) // exactly what is there, one less, one more
 	case 5:
 		return 1, -int64(r.Range(2, 5000))
-	default:
+	case 6:
 		return 2, int64(r.Range(-1, 1))
+	case 7:
+		return 3, int64(r.Range(1, 7)) // k/8 of what is there
+	default:
+		return 4, int64(r.Range(1, 2000)) * 1e5 // a modest amount, capped by what is there
 	}
+}
+
+var spendKinds = map[string]bool{"transfer": true, "toexec": true, "withdraw": true, "frozen": true, "active": true,
+	"exectransfer": true, "exectransferfrozen": true, "execwithdraw": true, "burn": true}
+
+func kindIndex(k string) int {
+	for i, x := range kinds {
+		if x == k {
+			return i
+		}
+	}
+	return 0
 }
 
 func (c15) Generate(prop string, r *simrt.RNG, tier string, run int) *simrt.Scenario {
 	sc := &simrt.Scenario{Knobs: map[string]int64{}}
 	// xcase: executor address arguments may also be spelled in mixed case
-	if r.Chance(1, 8) {
+	// (rare: on the current tree this is a finding of its own and a worker stops
+	// after two violations; see the report)
+	if r.Chance(1, 300) {
 		sc.Knobs["xcase"] = 1
 	}
+	// twosp: one call may name the same account twice in two different spellings
+	twosp := r.Chance(1, 100)
+	if twosp {
+		sc.Knobs["twosp"] = 1
+	}
 	nops := r.Range(4, 40)
-	// a focus pair makes repeated use of the same accounts likely
-	fa, fb := r.Intn(nUsers), r.Intn(nUsers)
+	// a focus (ledger, executor, three accounts) makes operations meet funded accounts
+	fl := 0
+	if r.Chance(1, 4) {
+		fl = 1
+	}
+	fx := nUsers + r.Intn(nExecs)
+	fu := []int{r.Intn(nUsers), r.Intn(nUsers), r.Intn(nPool)}
+	if twosp {
+		fu[0] = 3 + r.Intn(3) // a hex account
+	}
 	pickUser := func() int {
-		switch r.Intn(6) {
-		case 0, 1:
-			return fa
-		case 2:
-			return fb
-		case 3:
-			return nUsers + r.Intn(nExecs) // an executor address used as a plain account
+		if r.Chance(4, 5) {
+			return fu[r.Weighted(3, 2, 1)]
 		}
-		return r.Intn(nUsers)
+		return r.Intn(nPool)
+	}
+	var script []int // funding prologue
+	if r.Chance(5, 6) {
+		script = []int{kindIndex("genesisexec"), kindIndex("genesis"), kindIndex("genesisexec"), kindIndex("frozen")}
+		if r.Chance(1, 2) {
+			script = []int{kindIndex("genesis"), kindIndex("toexec"), kindIndex("frozen"), kindIndex("mint")}
+		}
 	}
 	for i := 0; i < nops; i++ {
 		var k int
-		if i < 3 {
-			k = []int{13, 14, 11, 1}[r.Intn(4)] // fund something first
+		if i < len(script) {
+			k = script[i]
 		} else {
-			k = r.Weighted(8, 8, 6, 6, 5, 8, 6, 3, 3, 3, 2, 4, 4, 4, 4)
+			k = r.Weighted(8, 8, 6, 6, 6, 8, 8, 3, 3, 3, 2, 3, 3, 2, 3)
 		}
+		kind := kinds[k]
 		a := pickUser()
 		b := pickUser()
-		if r.Chance(1, 5) {
-			b = a // same account (usually in another spelling)
+		if spendKinds[kind] && r.Chance(1, 2) {
+			a = fu[r.Weighted(3, 1)] // the accounts the prologue funded
 		}
-		x := nUsers + r.Intn(nExecs)
-		if r.Chance(1, 25) {
+		if i < len(script) {
+			a = fu[0]
+			if i == 2 {
+				a = fu[1]
+			}
+		}
+		spA, spB := r.Intn(4), r.Intn(4)
+		if r.Chance(1, 6) {
+			b = a // same account named twice
+			if twosp && r.Chance(1, 2) {
+				a, b = fu[0], fu[0]
+			}
+		}
+		if a == b && !twosp {
+			spB = spA
+		}
+		x := fx
+		if r.Chance(1, 8) {
+			x = nUsers + r.Intn(nExecs)
+		}
+		if (kind == "execdepositfrozen" || kind == "execissue") && r.Chance(2, 3) {
+			x = nUsers // the miner executor: the only one allowed to issue
+		}
+		if r.Chance(1, 40) {
 			x = r.Intn(nUsers) // any address string can be passed as executor address
 		}
-		ledger := 0
-		if r.Chance(1, 4) {
-			ledger = 1
+		ledger := fl
+		if r.Chance(1, 10) {
+			ledger = 1 - fl
 		}
-		mode, val := genAmount(r)
-		if kinds[k] == "genesis" || kinds[k] == "genesisexec" {
-			if i < 3 || r.Chance(1, 2) {
+		mode, val := genAmount(r, spendKinds[kind])
+		if kind == "genesis" || kind == "genesisexec" {
+			if i < len(script) || r.Chance(1, 2) {
 				mode, val = 0, []int64{5e8, perOpLimit - 1, 3e15, types.MaxTokenBalance - 7, types.MaxTokenBalance}[r.Intn(5)]
-				if kinds[k] == "genesisexec" && r.Chance(3, 4) {
-					val = []int64{5e8, perOpLimit - 1, 3e15}[r.Intn(3)]
+				if kind == "genesisexec" && (i < len(script) || r.Chance(3, 4)) {
+					val = []int64{5e8, perOpLimit - 1, 3e15, 77}[r.Intn(4)]
 				}
 			}
 		}
-		sc.Ops = append(sc.Ops, simrt.Op{K: kinds[k], I: []int64{int64(ledger), int64(a), int64(r.Intn(4)), int64(b), int64(r.Intn(4)), int64(x), int64(r.Intn(4)), mode, val}})
+		sc.Ops = append(sc.Ops, simrt.Op{K: kind, I: []int64{int64(ledger), int64(a), int64(spA), int64(b), int64(spB), int64(x), int64(r.Intn(4)), mode, val}})
 	}
 	return sc
 }
@@ -509,6 +570,17 @@ func (e *env) step(op *simrt.Op) *simrt.Violation {
 			amount = types.MaxTokenBalance - *dstBal + op.Int(8)
 		} else {
 			amount = types.MaxTokenBalance + op.Int(8)
+		}
+	case 3:
+		if srcAvail != nil {
+			amount = *srcAvail / 8 * (op.Int(8) & 7)
+		} else {
+			amount = 1000 * (op.Int(8) & 7)
+		}
+	case 4:
+		amount = op.Int(8)
+		if srcAvail != nil && *srcAvail < amount {
+			amount = *srcAvail
 		}
 	}
 	if amount < 0 {
